@@ -5,6 +5,9 @@
 (* Pure operators: Apply(L, st, op) is the state after op under limits L.      *)
 (* L = [ac, vl, ec, lc, pe, pl]  (attribute count, value length, event count,  *)
 (*      link count, per-event attrs, per-link attrs); negative = unlimited.    *)
+(* A span comes into being by Start(attrs, links): the start options are the   *)
+(* same SetAttributes / AddLink steps as later calls (trace.WithAttributes,    *)
+(* trace.WithLinks: "added to the existing Span links"), nothing else.         *)
 EXTENDS Naturals, Integers, Sequences, Truncate
 
 (* attribute: [k |-> key string ("" = invalid), t |-> type, x |-> <<syms,...>>] *)
@@ -16,7 +19,8 @@ Stored(L, a) == [k |-> a.k, t |-> a.t, x |-> TruncVal(Trunc, L.vl, a), y |-> Tru
 
 Empty == [attrs |-> <<>>, dropped |-> 0, events |-> <<>>, evDropped |-> 0,
           links |-> <<>>, lkDropped |-> 0, code |-> "Unset", desc |-> "", name |-> "n0",
-          ended |-> FALSE]
+          ended |-> FALSE, started |-> TRUE]
+Unstarted == [Empty EXCEPT !.started = FALSE]      \* no span yet: only Start applies
 
 IndexOf(attrs, k) == IF \E i \in 1..Len(attrs) : attrs[i].k = k
                      THEN CHOOSE i \in 1..Len(attrs) : attrs[i].k = k ELSE 0
@@ -46,17 +50,53 @@ FifoAdd(q, cap, e) ==
 
 Capped(n, cap) == IF cap < 0 \/ n <= cap THEN [n |-> n, d |-> 0] ELSE [n |-> cap, d |-> n - cap]
 
-AddEvent(L, st, nm, n) ==
-  LET c == Capped(n, L.pe)
-      r == FifoAdd(st.events, L.ec, [name |-> nm, n |-> c.n, d |-> c.d])
+(* ---- events.  The attributes of one event are a LIST (trace.WithAttributes:  *)
+(* successive options extend, "no guarantee of uniqueness"): entry j of the     *)
+(* caller's list is [k |-> key, i |-> j]; the per-event cap keeps the first     *)
+(* `cap` entries of the list and counts every other one as dropped.             *)
+UserKs(keys) == [j \in 1..Len(keys) |-> [k |-> keys[j], i |-> j]]
+CapList(list, cap) == IF cap < 0 \/ Len(list) <= cap THEN [ks |-> list, d |-> 0]
+                      ELSE [ks |-> SubSeq(list, 1, cap), d |-> Len(list) - cap]
+
+(* list / list2: the two admissible orders of the same attributes (equal for AddEvent) *)
+AddEventL(L, st, nm, ts, list, list2) ==
+  LET c == CapList(list, L.pe)
+      c2 == CapList(list2, L.pe)
+      r == FifoAdd(st.events, L.ec, [name |-> nm, ts |-> ts, ks |-> c.ks, ks2 |-> c2.ks, d |-> c.d])
   IN [st EXCEPT !.events = r.q, !.evDropped = @ + r.d]
 
-(* a link with an invalid span context, no attributes and no tracestate is ignored *)
-AddLink(L, st, valid, n) ==
-  IF ~valid /\ n = 0 THEN st
-  ELSE LET c == Capped(n, L.pl)
-           r == FifoAdd(st.links, L.lc, [valid |-> valid, n |-> c.n, d |-> c.d])
+AddEvent(L, st, nm, ts, keys) == AddEventL(L, st, nm, ts, UserKs(keys), UserKs(keys))
+
+(* RecordError(err, opts): an event named "exception" whose attributes are the  *)
+(* generated exception.type, exception.message and -- with WithStackTrace(true) *)
+(* -- exception.stacktrace, together with the caller's attributes, ALL of them  *)
+(* subject to the per-event cap and counted when cut.  Nothing documents        *)
+(* whether the caller's or the generated attributes come first: both orders    *)
+(* are admitted (ks = caller's first, as the SDK does; ks2 = generated first);  *)
+(* the dropped count is the same for both.  A nil error records nothing.        *)
+GenKs(stack) == <<[k |-> "exception.type", i |-> 0], [k |-> "exception.message", i |-> 0]>>
+                \o (IF stack THEN <<[k |-> "exception.stacktrace", i |-> 0]>> ELSE <<>>)
+RecordError(L, st, nilerr, stack, ts, keys) ==
+  IF nilerr THEN st
+  ELSE AddEventL(L, st, "exception", ts, UserKs(keys) \o GenKs(stack), GenKs(stack) \o UserKs(keys))
+
+(* ---- links.  lk = [valid, tst, n]: valid span context?, non-empty trace state?,*)
+(* number of attributes.  A link with an invalid span context is ignored (not   *)
+(* queued, not counted as dropped) unless it carries attributes or a trace      *)
+(* state (OTel spec "Link"; CHANGELOG #5315).  The same rule holds for          *)
+(* links given at Start.                                                        *)
+Ignorable(lk) == ~lk.valid /\ ~lk.tst /\ lk.n = 0
+AddLink(L, st, lk) ==
+  IF Ignorable(lk) THEN st
+  ELSE LET c == Capped(lk.n, L.pl)
+           r == FifoAdd(st.links, L.lc, [valid |-> lk.valid, tst |-> lk.tst, n |-> c.n, d |-> c.d])
        IN [st EXCEPT !.links = r.q, !.lkDropped = @ + r.d]
+
+RECURSIVE AddLinks(_, _, _)
+AddLinks(L, st, lks) == IF lks = <<>> THEN st ELSE AddLinks(L, AddLink(L, st, Head(lks)), Tail(lks))
+
+(* the span as it is right after Start(WithAttributes(attrs...), WithLinks(lks...)) *)
+Start(L, attrs, lks) == AddLinks(L, SetAttributes(L, Empty, attrs), lks)
 
 Rank(c) == CASE c = "Unset" -> 0 [] c = "Error" -> 1 [] c = "Ok" -> 2
 SetStatus(st, c, d) ==
@@ -64,14 +104,16 @@ SetStatus(st, c, d) ==
   ELSE [st EXCEPT !.code = c, !.desc = IF c = "Error" THEN d ELSE ""]
 
 Apply(L, st, op) ==
-  IF st.ended THEN st      \* calls made after End change nothing
+  IF ~st.started THEN (IF op.op = "Start" THEN Start(L, op.attrs, op.links) ELSE st)
+  ELSE IF st.ended \/ op.op = "Start" THEN st      \* calls made after End change nothing
   ELSE CASE op.op = "SetAttributes" -> SetAttributes(L, st, op.attrs)
-         [] op.op = "AddEvent"      -> AddEvent(L, st, op.name, op.n)
-         [] op.op = "RecordError"   -> AddEvent(L, st, "exception", op.n + 2)
-         [] op.op = "AddLink"       -> AddLink(L, st, op.valid, op.n)
+         [] op.op = "AddEvent"      -> AddEvent(L, st, op.name, op.ts, op.keys)
+         [] op.op = "RecordError"   -> RecordError(L, st, op.nilerr, op.stack, op.ts, op.keys)
+         [] op.op = "AddLink"       -> AddLink(L, st, op)
          [] op.op = "SetStatus"     -> SetStatus(st, op.code, op.desc)
          [] op.op = "SetName"       -> [st EXCEPT !.name = op.name]
          [] op.op = "End"           -> [st EXCEPT !.ended = TRUE]
+         [] op.op = "Peek"          -> st     \* reading the live span (ReadOnlySpan accessors) changes nothing
 
 -----------------------------------------------------------------------------
 (* The statement as invariants of any reachable model state *)
@@ -79,10 +121,12 @@ KeysUnique(st) == \A i, j \in 1..Len(st.attrs) : st.attrs[i].k = st.attrs[j].k =
 CountBound(L, st) == /\ (L.ac >= 0 => Len(st.attrs) <= L.ac)
                      /\ (L.ec >= 0 => Len(st.events) <= L.ec)
                      /\ (L.lc >= 0 => Len(st.links) <= L.lc)
-                     /\ \A i \in 1..Len(st.events) : L.pe >= 0 => st.events[i].n <= L.pe
+                     /\ \A i \in 1..Len(st.events) : L.pe >= 0 =>
+                           Len(st.events[i].ks) <= L.pe /\ Len(st.events[i].ks2) <= L.pe
                      /\ \A i \in 1..Len(st.links) : L.pl >= 0 => st.links[i].n <= L.pl
 NoInvalidKey(st) == \A i \in 1..Len(st.attrs) : st.attrs[i].k # ""
 LengthBound(L, st) == \A i \in 1..Len(st.attrs) : st.attrs[i].t \in {"s", "ss"} /\ L.vl >= 0 =>
                          \A j \in 1..Len(st.attrs[i].x) : Len(st.attrs[i].x[j]) <= L.vl
 DescOnlyForError(st) == st.code # "Error" => st.desc = ""
+NoIgnorableLink(st) == \A i \in 1..Len(st.links) : st.links[i].valid \/ st.links[i].tst \/ st.links[i].n + st.links[i].d > 0
 =============================================================================
